@@ -6,3 +6,6 @@
 
 pub mod rng;
 pub mod conv;
+pub mod astjson;
+pub mod obs;
+pub mod worker;
